@@ -6,9 +6,15 @@ package main
 // that it stays valid wherever a derived key exists, plus byte-level damage and arbitrary bytes.
 
 import (
+	"bytes"
+	"crypto/hmac"
+	"crypto/sha256"
 	"encoding/hex"
 	"fmt"
+	"sort"
 	"strings"
+
+	"golang.org/x/crypto/sha3"
 
 	"verifharness/cv"
 )
@@ -96,7 +102,11 @@ func (g *gen) addBoth(family, name string, d *J, pw []byte) {
 }
 
 func (g *gen) password(i int) []byte {
-	switch i % 9 {
+	switch i % 11 {
+	case 9:
+		return []byte("password-from-a-file\n")
+	case 10:
+		return []byte("\tpass word\r\n")
 	case 0:
 		return []byte("correcthorsebatterystaple")
 	case 1:
@@ -146,6 +156,81 @@ func fixedBase(kdf string) *base {
 	return b
 }
 
+// wrongPasswords: near misses of pw (never pw itself).
+func wrongPasswords(pw []byte) [][]byte {
+	cat := func(parts ...[]byte) []byte { return bytes.Join(parts, nil) }
+	out := [][]byte{
+		cat(pw, []byte("x")), cat(pw, []byte{0}), cat(pw, []byte(" ")), cat(pw, []byte("\n")), cat(pw, []byte("\r\n")), cat(pw, []byte("\t")),
+		cat([]byte(" "), pw), cat([]byte("\n"), pw), cat([]byte{0}, pw), cat([]byte("\xef\xbb\xbf"), pw),
+		bytes.TrimSpace(pw), bytes.TrimRight(pw, "\r\n"), bytes.TrimRight(pw, "\n"), bytes.TrimLeft(pw, " \t"), bytes.Trim(pw, "\x00"),
+		bytes.ToUpper(pw), bytes.ToLower(pw), bytes.ToValidUTF8(pw, []byte("\xef\xbf\xbd")), bytes.ReplaceAll(pw, []byte("\r\n"), []byte("\n")),
+		{}, cat(pw, pw),
+	}
+	if i := bytes.IndexByte(pw, 0); i >= 0 {
+		out = append(out, pw[:i]) // a C string
+	}
+	for _, n := range []int{8, 16, 32, 55, 56, 63, 64, 65, 72, 128, 255, 256, 512, 1024} {
+		if len(pw) > n {
+			out = append(out, pw[:n])
+		}
+	}
+	if len(pw) > 0 {
+		out = append(out, pw[:len(pw)-1], pw[1:])
+		for _, pos := range []int{0, len(pw) / 2, len(pw) - 1} {
+			fl := append([]byte{}, pw...)
+			fl[pos] ^= 0x01
+			out = append(out, fl)
+			fl = append([]byte{}, pw...)
+			fl[pos] ^= 0x80
+			out = append(out, fl)
+		}
+	}
+	seen := map[string]bool{string(pw): true}
+	var res [][]byte
+	for _, w := range out {
+		if !seen[string(w)] {
+			seen[string(w)] = true
+			res = append(res, w)
+		}
+	}
+	return res
+}
+
+func sortedKeys(m map[string][]byte) []string {
+	ks := make([]string, 0, len(m))
+	for k := range m {
+		ks = append(ks, k)
+	}
+	sort.Strings(ks)
+	return ks
+}
+
+// macVariants: values a reader with a slightly different MAC rule would expect (none is the V3 MAC).
+func macVariants(dk, ct []byte) map[string][]byte {
+	s3 := sha3.Sum256(append(append([]byte{}, dk[16:32]...), ct...))
+	s2 := sha256.Sum256(append(append([]byte{}, dk[16:32]...), ct...))
+	hm := hmac.New(sha256.New, dk[16:32])
+	hm.Write(ct)
+	out := map[string][]byte{
+		"sha3-256":         s3[:],
+		"sha256":           s2[:],
+		"hmac-sha256":      hm.Sum(nil),
+		"first-half":       keccak(dk[0:16], ct),
+		"whole-dk":         keccak(dk[0:32], ct),
+		"ciphertext-first": keccak(ct, dk[16:32]),
+		"ciphertext-only":  keccak(ct),
+		"mackey-only":      keccak(dk[16:32]),
+		"keccak512-prefix": func() []byte { h := sha3.NewLegacyKeccak512(); h.Write(dk[16:32]); h.Write(ct); return h.Sum(nil)[:32] }(),
+	}
+	if len(ct) > 32 {
+		out["part:first-32"] = keccak(dk[16:32], ct[:32])
+		out["part:first-16"] = keccak(dk[16:32], ct[:16])
+		out["part:last-32"] = keccak(dk[16:32], ct[len(ct)-32:])
+		out["part:whole-blocks"] = keccak(dk[16:32], ct[:len(ct)/16*16])
+	}
+	return out
+}
+
 func mustHex(s string) []byte {
 	b, err := hex.DecodeString(s)
 	if err != nil {
@@ -185,6 +270,74 @@ func (g *gen) generate(thorough bool) {
 			g.add("valid-large", b.kdf, d2.Bytes(), b.pw)
 		}
 	}
+	// round 3: wrong passwords that differ from the right one only in what a "helpful" normalisation would
+	// remove or add (surrounding white space, a final newline, a NUL, letter case, a truncation), on valid
+	// files whose own password carries such characters; and the right password of one variant read against the
+	// file of the other
+	for i := 0; i < 11; i++ {
+		for ki, kdf := range []string{"scrypt", "pbkdf2"} {
+			if ki != i%2 && i != 3 && i < 9 { // one KDF per class, both for the white-space / newline classes
+				continue
+			}
+			b := fixedBase(kdf)
+			b.pw = g.password(i)
+			if i == 7 || i == 8 {
+				b.pw = append([]byte("Rnd "), g.r.Bytes(6)...)
+			}
+			b.salt = g.r.Bytes(32)
+			d := b.doc().Bytes()
+			g.add("valid", fmt.Sprintf("%s password class %d", kdf, i), d, b.pw)
+			for wi, w := range wrongPasswords(b.pw) {
+				full := (i == 3 || i == 5 || i >= 9) && ki == i%2 // all of them for the white-space / newline / 1 KiB classes (one KDF), a third elsewhere
+				if full || (i+wi)%3 == 0 {
+					g.add("wrong-password", fmt.Sprintf("%s class %d variant %d", kdf, i, wi), d, w)
+				}
+			}
+		}
+	}
+	// keys, IVs and salts with leading / trailing zero bytes, all zero, all 0xff (a counter that wraps), and the
+	// shortest ones: nothing may be stripped, padded or normalised
+	{
+		z := func(n int) []byte { return make([]byte, n) }
+		ff := func(n int) []byte { return bytes.Repeat([]byte{0xff}, n) }
+		lead := func(n, k int) []byte { b := g.r.Bytes(n); copy(b, z(k)); b[k] |= 1; return b }
+		trail := func(n, k int) []byte { b := g.r.Bytes(n); copy(b[n-k:], z(k)); b[n-k-1] |= 1; return b }
+		type kis struct {
+			name          string
+			key, iv, salt []byte
+		}
+		var list []kis
+		for _, k := range [][]byte{z(32), z(1), z(33), lead(32, 1), lead(32, 5), trail(32, 1), trail(32, 7), lead(16, 15), ff(32), {0x00, 0x01}, {0x01, 0x00}} {
+			list = append(list, kis{fmt.Sprintf("key=%x", k), k, g.r.Bytes(16), g.r.Bytes(32)})
+		}
+		for _, v := range [][]byte{z(16), ff(16), lead(16, 1), lead(16, 8), trail(16, 1), trail(16, 9), append(g.r.Bytes(8), ff(8)...)} {
+			list = append(list, kis{fmt.Sprintf("iv=%x", v), g.r.Bytes(48), v, g.r.Bytes(32)}) // 3 blocks: the counter moves
+		}
+		for _, sa := range [][]byte{z(32), z(1), ff(32), lead(32, 1), lead(32, 16), trail(32, 1), trail(32, 31), lead(8, 1)} {
+			list = append(list, kis{fmt.Sprintf("salt=%x", sa), g.r.Bytes(32), g.r.Bytes(16), sa})
+		}
+		for i, e := range list {
+			b := fixedBase([]string{"scrypt", "pbkdf2"}[i%2])
+			b.key, b.ivb, b.salt = e.key, e.iv, e.salt
+			g.add("valid-zeros", b.kdf+" "+e.name, b.doc().Bytes(), b.pw)
+			b2 := fixedBase([]string{"pbkdf2", "scrypt"}[i%2])
+			b2.key, b2.ivb, b2.salt = e.key, e.iv, e.salt
+			b2.pw = g.password(i)
+			g.add("valid-zeros", b2.kdf+" "+e.name, b2.doc().Bytes(), b2.pw)
+		}
+	}
+	// documents of exactly 16 KiB, one byte less and one byte more (the quantifier's size bound)
+	for _, kdf := range []string{"scrypt", "pbkdf2"} {
+		b := fixedBase(kdf)
+		d := b.doc()
+		d.Set(jstr(""), "note")
+		base := len(d.Bytes())
+		for _, total := range []int{16383, 16384, 16385, 8192, 8193, 4096, 4097, 65536} {
+			d2 := d.Clone()
+			d2.Set(jstr(strings.Repeat("n", total-base)), "note")
+			g.add("valid-large", fmt.Sprintf("%s %d bytes", kdf, len(d2.Bytes())), d2.Bytes(), b.pw)
+		}
+	}
 	// long ciphertext (key of several KiB)
 	for _, kdf := range []string{"scrypt", "pbkdf2"} {
 		b := fixedBase(kdf)
@@ -214,7 +367,9 @@ func (g *gen) generate(thorough bool) {
 
 		// ---- C. dklen sweep
 		for _, v := range []string{"-9223372036854775808", "-2147483648", "-64", "-33", "-32", "-31", "-1", "0", "1", "15", "16", "17", "31", "32", "33",
-			"48", "63", "64", "65", "2147483647", "2147483648", "4294967296", "9223372036854775807", "9223372036854775808", "32.0", "3.2e1", "\"32\""} {
+			"48", "63", "64", "65", "2147483647", "2147483648", "4294967296", "9223372036854775807", "9223372036854775808", "32.0", "3.2e1", "\"32\"",
+			// round 3: values that are 32 after a conversion to a narrower integer type
+			"288", "65568", "-4294967264", "-224", "4294967328", "18446744073709551648", "032", "+32", "0x20"} {
 			d := d0.Clone()
 			if strings.HasPrefix(v, "\"") {
 				d.Set(jstr(strings.Trim(v, "\"")), "crypto", "kdfparams", "dklen")
@@ -261,13 +416,15 @@ func (g *gen) generate(thorough bool) {
 
 		// ---- G. kdf / prf names
 		for _, s := range []string{"Scrypt", "SCRYPT", "scrypt ", " scrypt", "", "argon2id", "bcrypt", "pbkdf2-sha256", "PBKDF2", "pbkdf", "scrypt\u0000",
+			"pbkdf2-hmac-sha256", "PBKDF2-HMAC-SHA256", "pbkdf2_hmac", "pbkdf2-hmac", "scryptsalsa208sha256", "scrypt-n", "s-crypt", "pbkdf2\n",
 			map[string]string{"scrypt": "pbkdf2", "pbkdf2": "scrypt"}[kdf]} {
 			d := d0.Clone()
 			d.Set(jstr(s), "crypto", "kdf")
 			g.addBoth("kdf-name", fmt.Sprintf("%s kdf=%q", kdf, s), d, pw)
 		}
 		if kdf == "pbkdf2" {
-			for _, s := range []string{"hmac-sha512", "hmac-sha1", "HMAC-SHA256", "hmac-sha256 ", "sha256", "", "hmac-sha-256", "hmac-sha384"} {
+			for _, s := range []string{"hmac-sha512", "hmac-sha1", "HMAC-SHA256", "hmac-sha256 ", "sha256", "", "hmac-sha-256", "hmac-sha384",
+				"hmacsha256", "HmacSHA256", "hmac_sha256", "sha-256", "hmac-sha256\n", "hmac-sha256\u0000", "hmac-sha3-256", "hmac-sha224"} {
 				d := d0.Clone()
 				d.Set(jstr(s), "crypto", "kdfparams", "prf")
 				g.addBoth("prf-name", fmt.Sprintf("prf=%q", s), d, pw)
@@ -294,6 +451,23 @@ func (g *gen) generate(thorough bool) {
 					g.addBoth("scrypt-"+f, f+"="+v, d, pw)
 				}
 			}
+			// round 3: files with the package's own default parameters (n = 1024 / 4096, r = 8, p = 1) whose n, r or p
+			// is then changed with the MAC left alone: a reader that uses its constant instead of the declared value
+			// still accepts them
+			for _, nn := range []int64{1024, 4096} {
+				bd := fixedBase("scrypt")
+				bd.n, bd.r, bd.p = nn, 8, 1
+				dd := bd.doc()
+				g.add("valid", fmt.Sprintf("scrypt default parameters n=%d r=8 p=1", nn), dd.Bytes(), pw)
+				for _, ch := range [][2]string{{"r", "1"}, {"r", "4"}, {"r", "7"}, {"r", "9"}, {"r", "16"}, {"p", "2"}, {"p", "3"}, {"n", "2048"}, {"n", "512"}, {"n", "1024"}, {"n", "4096"}, {"n", "8192"}} {
+					if ch[0] == "n" && ch[1] == fmt.Sprint(nn) {
+						continue
+					}
+					d := dd.Clone()
+					d.Set(jnum(ch[1]), "crypto", "kdfparams", ch[0])
+					g.add("default-params-tampered", fmt.Sprintf("n=%d r=8 p=1 then %s=%s", nn, ch[0], ch[1]), d.Bytes(), pw)
+				}
+			}
 			// pairs: r*p around 2^30, both zero, both negative, mixed
 			pairs := [][2]string{{"0", "0"}, {"-1", "-1"}, {"-1", "0"}, {"0", "-1"}, {"-2", "-2"}, {"32768", "32768"}, {"32768", "32767"}, {"65536", "16384"},
 				{"1073741824", "1"}, {"1", "1073741824"}, {"-1073741824", "-1"}, {"4294967296", "4294967296"}, {"-4294967296", "4294967296"},
@@ -313,7 +487,7 @@ func (g *gen) generate(thorough bool) {
 			}
 		} else {
 			for _, v := range []string{"-9223372036854775808", "-4096", "-2", "-1", "0", "1", "2", "3", "4", "255", "256", "1000", "4095", "4096", "4097", "65536",
-				"9223372036854775808", "1.0", "1e0", "0.5"} {
+				"9223372036854775808", "1.0", "1e0", "0.5", "-4294967295", "-4294967294", "-255", "4294967296", "-9223372036854775807"} {
 				d := d0.Clone()
 				d.Set(jnum(v), "crypto", "kdfparams", "c")
 				g.addBoth("pbkdf2-c", "c="+v, d, pw)
@@ -335,10 +509,57 @@ func (g *gen) generate(thorough bool) {
 				}
 			}
 		}
+		// round 3: MACs computed by a plausible *other* rule (another hash, the other key half, another order, a
+		// part of the ciphertext): each must be rejected like any wrong MAC
+		{
+			f0 := extract(d0)
+			dk, _ := f0.lenientDK(pw)
+			longKey := fixedBase(kdf)
+			longKey.key = g.r.Bytes(80)
+			dl := longKey.doc()
+			fl := extract(dl)
+			mv := macVariants(dk, f0.ciphertext)
+			for _, name := range sortedKeys(mv) {
+				m := mv[name]
+				d := d0.Clone()
+				d.Set(jstr(hex.EncodeToString(m)), "crypto", "mac")
+				g.add("mac-variant", kdf+" "+name, d.Bytes(), pw)
+			}
+			dkl, _ := fl.lenientDK(pw)
+			mvl := macVariants(dkl, fl.ciphertext)
+			for _, name := range sortedKeys(mvl) {
+				m := mvl[name]
+				if strings.HasPrefix(name, "part:") {
+					d := dl.Clone()
+					d.Set(jstr(hex.EncodeToString(m)), "crypto", "mac")
+					g.add("mac-variant", kdf+" 80-byte key "+name, d.Bytes(), pw)
+				}
+			}
+			// two members missing / empty at once
+			for _, drop := range [][][]string{{{"crypto", "mac"}, {"crypto", "ciphertext"}}, {{"crypto", "mac"}, {"crypto", "cipherparams"}}, {{"crypto", "mac"}, {"crypto", "kdfparams", "salt"}},
+				{{"crypto", "mac"}, {"crypto", "cipher"}}, {{"crypto", "mac"}, {"crypto", "ciphertext"}, {"crypto", "cipherparams"}}, {{"crypto", "mac"}, {"crypto", "kdfparams"}}} {
+				d := d0.Clone()
+				var names []string
+				for _, p := range drop {
+					d.Del(p...)
+					names = append(names, p[len(p)-1])
+				}
+				g.add("member-missing", kdf+" "+strings.Join(names, "+"), d.Bytes(), pw)
+				d = d0.Clone()
+				for _, p := range drop {
+					if p[len(p)-1] == "cipherparams" || p[len(p)-1] == "kdfparams" {
+						d.Set(jobj(), p...)
+					} else {
+						d.Set(jstr(""), p...)
+					}
+				}
+				g.add("member-missing", kdf+" empty "+strings.Join(names, "+"), d.Bytes(), pw)
+			}
+		}
 		// every single-byte change of ciphertext, mac and salt in one position each (C07 covers all positions)
 		for _, f := range [][]string{{"crypto", "kdfparams", "salt"}, {"crypto", "ciphertext"}, {"crypto", "mac"}} {
 			raw := mustHex(d0.At(f...).S)
-			for _, pos := range []int{0, len(raw) / 2, len(raw) - 1} {
+			for _, pos := range []int{0, len(raw) / 2, len(raw) - 1, 1, 15, len(raw)/2 + 1, len(raw) - 2} {
 				m := append([]byte{}, raw...)
 				m[pos] ^= byte(1 << uint(g.r.Intn(8)))
 				d := d0.Clone()
@@ -348,7 +569,8 @@ func (g *gen) generate(thorough bool) {
 		}
 
 		// ---- I. version / id
-		for _, v := range []string{"-3", "0", "1", "2", "3", "4", "30", "3.0", "3e0", "0.3e1", "3.5", "18446744073709551619", "\"3\"", "null", "true", "[3]", "{}"} {
+		for _, v := range []string{"-3", "0", "1", "2", "3", "4", "30", "3.0", "3e0", "0.3e1", "3.5", "18446744073709551619", "\"3\"", "null", "true", "[3]", "{}",
+			"259", "65539", "4294967299", "-4294967293", "-253", "9223372036854775811", "03", "-0", "33", "13", "31"} {
 			d := d0.Clone()
 			var nv *J
 			switch {
@@ -444,14 +666,14 @@ func (g *gen) generate(thorough bool) {
 		// ---- byte-level damage of a valid document: truncation at every k-th byte, single byte changes,
 		// insertions, trailing data, leading BOM / whitespace
 		good := d0.Bytes()
-		step := 7
+		step := 9
 		if thorough {
 			step = 1
 		}
 		for cut := 0; cut < len(good); cut += step {
 			g.add("truncated", fmt.Sprintf("%s cut at %d", kdf, cut), append([]byte{}, good[:cut]...), pw)
 		}
-		for i := 0; i < 120*mult; i++ {
+		for i := 0; i < 80*mult; i++ {
 			m := append([]byte{}, good...)
 			pos := g.r.Intn(len(m))
 			switch g.r.Intn(4) {
@@ -524,7 +746,7 @@ func (g *gen) generate(thorough bool) {
 	}
 
 	// ---- arbitrary bytes
-	for i := 0; i < 150*mult; i++ {
+	for i := 0; i < 110*mult; i++ {
 		n := g.r.Intn(64)
 		if i%5 == 0 {
 			n = g.r.Intn(16384)
